@@ -8,6 +8,7 @@ import Nlmodel.Model.Session
 import Nlmodel.Driver.GcOps
 import Nlmodel.Model.Verifier
 import Nlmodel.Proofs.Lemmas.SimFnValidate
+import Nlmodel.Proofs.Lemmas.SimHValidate
 open Nl
 
 /-- character classes: loaded from the table dumped by the harness from Rust's std
@@ -158,7 +159,7 @@ def handle (cc : CharClass) (line : String) : String :=
       | .ok ast =>
         match compileProgram ast with
         | .error _ => "nocompile"
-        | .ok (r, _) => if SimF.inFragment r then "proved" else "outside"
+        | .ok (r, _) => if SimF.inFragment r then "proved" else if SimH.inFragmentH r then "proved-heap" else "outside"
     | none => "bad-hex"
   | _ => "bad-request"
 
